@@ -54,7 +54,7 @@ func provenance(fc *freshCtx, v ssa.Value) []prov {
 				walk(x.Call.Args[0])
 				return
 			}
-			if f := x.Call.StaticCallee(); f != nil && fc.returnsFresh[f] {
+			if isFreshValue(fc, x) { // a returns-fresh callee, or a pass-through helper given fresh arguments
 				out = append(out, prov{"fresh", v, nil})
 				return
 			}
@@ -387,9 +387,7 @@ func sameValue2(a, b ssa.Value) bool {
 	return len(ta.bases) == 1 && len(tb.bases) == 1 && ta.bases[0].v == tb.bases[0].v && len(ta.fields) == len(tb.fields)
 }
 
-var w6Exceptions = map[string]string{
-
-}
+var w6Exceptions = map[string]string{}
 
 var w6Prog *Prog
 var w6Depth int
@@ -428,9 +426,9 @@ func stackOnlyValue(v ssa.Value, inProgress map[*ssa.Parameter]bool) bool {
 			if x.Val == v {
 				// spilled into the variadic array of an append? that array is a temp
 				if os.Getenv("VERIF_DEBUG_W6") != "" {
-				fmt.Fprintf(os.Stderr, "stackOnly false: %s used by %T in %s\n", v.Name(), r, r.Parent())
-			}
-			return false
+					fmt.Fprintf(os.Stderr, "stackOnly false: %s used by %T in %s\n", v.Name(), r, r.Parent())
+				}
+				return false
 			}
 		case *ssa.Call:
 			if b, ok := x.Call.Value.(*ssa.Builtin); ok {
@@ -441,21 +439,21 @@ func stackOnlyValue(v ssa.Value, inProgress map[*ssa.Parameter]bool) bool {
 					if x.Call.Args[0] == v {
 						if !stackOnlyValue(x, inProgress) {
 							if os.Getenv("VERIF_DEBUG_W6") != "" {
-				fmt.Fprintf(os.Stderr, "stackOnly false: %s used by %T in %s\n", v.Name(), r, r.Parent())
-			}
-			return false
+								fmt.Fprintf(os.Stderr, "stackOnly false: %s used by %T in %s\n", v.Name(), r, r.Parent())
+							}
+							return false
 						}
 						continue
 					}
 					if os.Getenv("VERIF_DEBUG_W6") != "" {
-				fmt.Fprintf(os.Stderr, "stackOnly false: %s used by %T in %s\n", v.Name(), r, r.Parent())
-			}
-			return false
+						fmt.Fprintf(os.Stderr, "stackOnly false: %s used by %T in %s\n", v.Name(), r, r.Parent())
+					}
+					return false
 				default:
 					if os.Getenv("VERIF_DEBUG_W6") != "" {
-				fmt.Fprintf(os.Stderr, "stackOnly false: %s used by %T in %s\n", v.Name(), r, r.Parent())
-			}
-			return false
+						fmt.Fprintf(os.Stderr, "stackOnly false: %s used by %T in %s\n", v.Name(), r, r.Parent())
+					}
+					return false
 				}
 			}
 			cal := x.Call.StaticCallee()
@@ -467,17 +465,17 @@ func stackOnlyValue(v ssa.Value, inProgress map[*ssa.Parameter]bool) bool {
 			}
 			if cal == nil || cal.Blocks == nil || !strings.HasPrefix(fnPkgPath(cal), modPath) {
 				if os.Getenv("VERIF_DEBUG_W6") != "" {
-				fmt.Fprintf(os.Stderr, "stackOnly false: %s used by %T in %s\n", v.Name(), r, r.Parent())
-			}
-			return false
+					fmt.Fprintf(os.Stderr, "stackOnly false: %s used by %T in %s\n", v.Name(), r, r.Parent())
+				}
+				return false
 			}
 			for i, a := range x.Call.Args {
 				if a == v {
 					if i >= len(cal.Params) || !stackOnlyParam(cal.Params[i], inProgress) {
 						if os.Getenv("VERIF_DEBUG_W6") != "" {
-				fmt.Fprintf(os.Stderr, "stackOnly false: %s used by %T in %s\n", v.Name(), r, r.Parent())
-			}
-			return false
+							fmt.Fprintf(os.Stderr, "stackOnly false: %s used by %T in %s\n", v.Name(), r, r.Parent())
+						}
+						return false
 					}
 				}
 			}
@@ -487,18 +485,18 @@ func stackOnlyValue(v ssa.Value, inProgress map[*ssa.Parameter]bool) bool {
 				for _, r2 := range *ia.Referrers() {
 					if st, ok := r2.(*ssa.Store); ok && st.Addr == ia {
 						if os.Getenv("VERIF_DEBUG_W6") != "" {
-				fmt.Fprintf(os.Stderr, "stackOnly false: %s used by %T in %s\n", v.Name(), r, r.Parent())
-			}
-			return false
+							fmt.Fprintf(os.Stderr, "stackOnly false: %s used by %T in %s\n", v.Name(), r, r.Parent())
+						}
+						return false
 					}
 				}
 			}
 		case *ssa.Slice, *ssa.Phi, *ssa.ChangeType:
 			if !stackOnlyValue(r.(ssa.Value), inProgress) {
 				if os.Getenv("VERIF_DEBUG_W6") != "" {
-				fmt.Fprintf(os.Stderr, "stackOnly false: %s used by %T in %s\n", v.Name(), r, r.Parent())
-			}
-			return false
+					fmt.Fprintf(os.Stderr, "stackOnly false: %s used by %T in %s\n", v.Name(), r, r.Parent())
+				}
+				return false
 			}
 		case *ssa.BinOp, *ssa.If:
 		default:
